@@ -174,7 +174,7 @@ func init() {
 					}
 				}
 			}
-			for _, k := range []string{"deb", "rpm", "apk", "ipk", "archlinux", "dpkg", "alpine", "pacman", "aaa", "zzz", "DEB", "Rpm", "rpm ", "debian", "arch", "linux", "pk", "eb", "pm", "a", "deb,rpm", ","} {
+			for _, k := range []string{"deb", "rpm", "apk", "ipk", "archlinux", "dpkg", "alpine", "pacman", "aaa", "zzz", "DEB", "Rpm", "rpm ", "debian", "arch", "linux", "pk", "eb", "pm", "a", "deb,rpm", ",", "termux.deb", ".deb", "a.b.rpm", "deb.", "x/apk", "rpm:el9"} {
 				if !yield(C13Case{Part: "validate", Key: k}) {
 					return
 				}
